@@ -59,6 +59,12 @@ CHECKS["C10"] = dict(
    text="Every arrival sequence of length <= 4 (quick) / 5 (thorough), and one level deeper on 8 configurations, over offsets {+1,+2,+3,dup,-1,-2,-3,+cap-1,+cap,+cap+1,-99,-100,-101,+32767} relative to the highest sequence seen is applied to the real JitterBuffer from an empty, an almost full and an already overflowed buffer, for 96 configurations (capacity 4..128, prefetch 0..4, audio/video, first sequence number 0 / 65530, two frame-size patterns). After every add: no exception, occupancy, frame = consecutive received packets with one timestamp, no reuse / monotone order while nothing arrived >= 100 late, PLI on discard. Completeness over all bounded-displacement permutations with an in-order continuation.",
    note="Extended indices kept by the harness; completeness demanded only for displacement bounds where the statement's premise certainly holds (see DESIGN 2/C10).",
    design="2/C10")
+CHECKS["C18"] = dict(
+   level="model_checking",
+   technique="explicit-state exploration as a complete depth-bounded tree of arrival/report histories replayed on the real RTCRtpReceiver (virtual loop, clock seam), every emitted report compared with an RFC 3550 reference model; deeper tree on the bare StreamStatistics with per-node copies",
+   text="Every history of length <= 5/4 (quick) or 6/5 (thorough) over 14 symbols (new frame, same timestamp, losses, duplicate, late packets, +300 / +32767 jumps, arrival clock jumping back, timestamp jump, burst, report timer, second SSRC), from start sequence/timestamp at 0 and just before the 16/32-bit wrap, is replayed on a fresh real RTCRtpReceiver whose own _run_rtcp task emits the receiver report through a transport stand-in; every report block and getStats() is compared with a reference model written from RFC 3550 A.1/A.3/A.8, and the RTCP task must survive (every value fits its field). The same tree one level deeper (6/7) on the bare StreamStatistics object.",
+   note="Decoder thread and RTCP interval randomness replaced through module-attribute seams; jitter pairing follows the implementation (statement leaves it open).",
+   design="2/C18")
 NOT_YET = {}
 
 def main():
